@@ -5,6 +5,7 @@ from pyvc.unit import unit
 
 ANA, DEX = S.ANA, S.DEX
 META = {
+    "technique": 'contract-based deductive verification: symbolic execution of the real functions against sidecar contracts (z3/cvc5) for the proved units; bounded contract evaluation (enumerated scope / independent writer) for the rest',
     "level": "other",
     "partial": True,
     "level_text": "Proof (leaves, symbolic instruction lengths/offsets): EncodedMethod.get_instructions_idx yields each instruction "
